@@ -17,6 +17,7 @@ type instOpts struct {
 	selects   bool
 	swap      bool // swap sync / atomic / rand imports (files listed under "instrument")
 	goGates   bool
+	stmtGates bool
 	extra     map[string]string
 }
 
@@ -119,6 +120,46 @@ func instrument(name string, src []byte, o instOpts) ([]byte, map[string]int, er
 		if n > 0 {
 			pend := fset.Position(f.Name.End()).Offset
 			edits = append(edits, edit{pend, pend, `; import verifgo "verif/simkit/simsync"`})
+		}
+	}
+	if o.stmtGates {
+		n := 0
+		var visitBlock func(list []ast.Stmt)
+		visitBlock = func(list []ast.Stmt) {
+			for i, st := range list {
+				if i == 0 {
+					continue
+				}
+				switch st.(type) {
+				case *ast.LabeledStmt, *ast.DeclStmt, *ast.EmptyStmt, *ast.CaseClause, *ast.CommClause:
+					continue
+				}
+				// never separate a statement from a preceding Lock() of a REAL mutex:
+				// files under stmt_gates must also be under instrument (checked by vcheck)
+				at := fset.Position(st.Pos()).Offset
+				edits = append(edits, edit{at, at, "verifst.StmtGate(); "})
+				n++
+			}
+		}
+		ast.Inspect(f, func(nd ast.Node) bool {
+			switch b := nd.(type) {
+			case *ast.FuncDecl:
+				if b.Name.Name == "init" {
+					return false
+				}
+			case *ast.BlockStmt:
+				visitBlock(b.List)
+			case *ast.CaseClause:
+				visitBlock(b.Body)
+			case *ast.CommClause:
+				visitBlock(b.Body)
+			}
+			return true
+		})
+		stats["stmt_gates"] += n
+		if n > 0 {
+			pend := fset.Position(f.Name.End()).Offset
+			edits = append(edits, edit{pend, pend, `; import verifst "verif/simkit/simsync"`})
 		}
 	}
 	// count constructs that stay nondeterministic, for the evidence file
